@@ -344,8 +344,11 @@ class _Handler:
         self._audio._tags = tags or {}
 
         if tags:
-            logger.debug("Audio event: tags_changed(tags=%r)", tags.keys())
-            AudioListener.send("tags_changed", tags=tags.keys())
+            # Send a copy of the keys: a dict_keys view of what is now
+            # self._audio._tags would keep changing after the event was sent.
+            changed = list(tags)
+            logger.debug("Audio event: tags_changed(tags=%r)", changed)
+            AudioListener.send("tags_changed", tags=changed)
 
         if self._audio._pending_metadata:
             self._audio._playbin.send_event(self._audio._pending_metadata)
